@@ -13,7 +13,7 @@ INITS = 'io,bufio,errors,time,github.com/bluenviron/gomavlib/v3/pkg/message,gith
 OPTIONS = {'x25_uf': True, 'now_stub': True}
 NATIVE = False
 ANCHOR_FILES = ['/repo/node.go', '/repo/channel.go', '/repo/channel_provider.go', '/repo/endpoint_custom.go', '/repo/endpoint_serial.go']
-LEVEL_TEXT = ('bounded symbolic execution of the real Node/Channel/provider code under a cooperative goroutine scheduler: thirteen scripted '
+LEVEL_TEXT = ('bounded symbolic execution of the real Node/Channel/provider code under a cooperative goroutine scheduler: seventeen scripted '
               'close scenarios, ONE schedule each (every goroutine runs until it blocks, round-robin, to quiescence); a violation is a real '
               'reachable state, a pass covers that schedule only')
 LEVEL_NOTE = ('NOT the for-all-schedules claim of the property: one deterministic schedule per scenario; custom endpoint only (no listeners, '
@@ -23,16 +23,16 @@ TECHNIQUE = 'symbolic execution of go/ssa under a deterministic cooperative goro
 
 def tasks(tier):
     return [Task('verifHarness_C12_close', [s]) for s in (0, 1, 2, 3)] + [Task('verifHarness_C12_close2', [s]) for s in (4, 5)] + \
-        [Task('verifHarness_C12_init_failure', [o]) for o in (0, 1)] + [Task('verifHarness_C12_init_failure_conf', [k]) for k in (0, 1, 2, 3, 4, 5)] + [Task('verifHarness_C12_close_backoff', [])]
+        [Task('verifHarness_C12_init_failure', [o]) for o in (0, 1)] + [Task('verifHarness_C12_init_failure_conf', [k]) for k in (0, 1, 2, 3, 4, 5)] + [Task('verifHarness_C12_close_backoff', [])] + [Task('verifHarness_C12_close_mid_open', [w]) for w in (0, 1)]
 
 
 def required_reach(tier):
-    return ['C12/close', 'C12/close2', 'C12/init-failure', 'C12/init-failure-conf', 'C12/backoff']
+    return ['C12/close', 'C12/close2', 'C12/init-failure', 'C12/init-failure-conf', 'C12/backoff', 'C12/mid-open']
 
 
 def bounds(tier):
     return {'scenarios': 'Close with (0) the application consuming and the channel idle, (1) the consumer stopped and the reader stuck on the '
-                         'undelivered open event, (2) the writer stuck inside a transport Write, (3) right after Initialize with a write racing, (4) while a provider is still connecting (the connection completes afterwards and must be released), (5) stream requests enabled, the reader stuck on an undelivered event with an ArduPilot heartbeat buffered behind it, (6) a serial endpoint whose device was lost, with every reopen failing and the reconnect timer not elapsed',
+                         'undelivered open event, (2) the writer stuck inside a transport Write, (3) right after Initialize with a write racing, (4) while a provider is still connecting (the connection completes afterwards and must be released), (5) stream requests enabled, the reader stuck on an undelivered event with an ArduPilot heartbeat buffered behind it, (7) a serial endpoint with an open of the device in flight (the first open, or a reopen after the device was lost) that succeeds after Close was issued: the port is closed exactly once, (6) a serial endpoint whose device was lost, with every reopen failing and the reconnect timer not elapsed',
             'failed_initialize_configuration': 'invalid dialect (duplicate id), missing version, zero system id, key with version 1, stream requests without the message / without a dialect (accepted as "module off", or refused: nothing left behind either way), with two scripted endpoints that count set-ups and closes: error, no goroutine, every endpoint that was set up closed once, no provider started',
             'failed_initialize': 'a usable custom endpoint before / after an endpoint whose set-up fails: error reported, no goroutine left, the endpoint already set up closed once',
             'schedule': 'ONE: goroutines run round-robin, each until it blocks, to quiescence',
